@@ -52,7 +52,9 @@ pub fn eval_patterns(spec: &TableSpec, line: &str) -> Option<HashMap<String, Pat
         } else {
             match re.captures(line) { None => PatResult::NoMatch, Some(c) => PatResult::Caps((0..c.len()).map(|i| c.get(i).map(|m| m.as_str().to_owned())).collect()) }
         };
-        out.insert(name, r);
+        // a name may be defined more than once: the last definition that applies to the line is the one the columns see
+        let applies = !matches!(r, PatResult::NoMatch);
+        if applies || !out.contains_key(&name) { out.insert(name, r); }
     }
     Some(out)
 }
